@@ -4,7 +4,7 @@ DM_INC = ["acquire-core-libs/src/acquire-core-platform/linux", "acquire-core-lib
           "acquire-core-libs/src/acquire-device-properties", "acquire-core-libs/src/acquire-device-hal"]
 # functions of the unit that are translated; everything else the module defines (the libstdc++
 # regex engine: ~220 template instantiations) is modelled by the harness
-WANT_RE = re.compile(r"^(device_manager_\w+|_ZL\d+device_manager_\w+|_ZN12_GLOBAL__N_115DeviceManagerV0\w+|_ZNK12_GLOBAL__N_115DeviceManagerV0\w+|_ZNSt6vectorIP6DriverSaIS1_EE\w+|_ZNSt6vectorIN12_GLOBAL__N_115DeviceManagerV023DeviceEnumerationResultESaIS2_EE\w+)$")
+WANT_RE = re.compile(r"^(device_manager_\w+|_ZL\d+device_manager_\w+|_ZN12_GLOBAL__N_115DeviceManagerV0\w+|_ZNK12_GLOBAL__N_115DeviceManagerV0\w+|_ZNSt6vectorIP6DriverSaIS1_EE\w+|_ZNSt6vectorIN12_GLOBAL__N_115DeviceManagerV023DeviceEnumerationResultESaIS2_EE\w+|_ZNK?St7__cxx1112basic_stringIcSt11char_traitsIcESaIcEE\w+|_ZStplIcSt11char_traitsIcESaIcEENSt7__cxx1112basic_stringI\w+)$")
 
 def pre_dm(VERIF):
     def pre(h, d, runner):
